@@ -55,9 +55,9 @@ def with_traces(plan, suite, n):
 
 def plan_C01(tier, seed):
     if tier == "quick":
-        return with_traces(eval_plan("c01", [("F1", 2), ("F2", 2), ("F3", 2), ("F4", 1), ("F5", 1), ("F6", 1), ("U1", 1), ("U2", 1)], []),
+        return with_traces(eval_plan("c01", [("F1", 2), ("F2", 2), ("F3", 2), ("F4", 1), ("F5", 1), ("F6", 1), ("W", 1), ("U1", 1), ("U2", 1)], []),
                            "suite2020", 300)
-    return with_traces(eval_plan("c01", [("F1", 3), ("F2", 3), ("F3", 3), ("F4", 2), ("F5", 1), ("F6", 1), ("U1", 1), ("U2", 1)], [],
+    return with_traces(eval_plan("c01", [("F1", 3), ("F2", 3), ("F3", 3), ("F4", 2), ("F5", 1), ("F6", 1), ("W", 1), ("U1", 1), ("U2", 1)], [],
                                  workers=5, parallel=3), "suite2020", 3000)
 
 
@@ -267,7 +267,7 @@ def plan_C20(tier, seed):
 def plan_C14(tier, seed):
     life = tlc("c14_lifecycle", "MC_Lifecycle", {"DEV_MutateLoadedDoc": "FALSE", "MaxHist": 3 if tier == "quick" else 4},
                ["Deterministic", "Pure", "Emit"], workers=4)
-    ev = eval_jobs("c14", [("F3", 2), ("F5", 1), ("U1", 1), ("DUP", 1)], "2020") + eval_jobs("c14", [("G2", 2), ("G5", 1)], "d7")
+    ev = eval_jobs("c14", [("F3", 2), ("F5", 1), ("U1", 1), ("DUP", 1), ("W", 1)], "2020") + eval_jobs("c14", [("G2", 2), ("G5", 1)], "d7")
     rs = res_jobs("c14", [("R2", 1)])
     lit = [cod_job("c14", "PO", 2, ["OrderRefines"]), cod_job("c14", "RT", 1, ["RoundTripKeepsMeaning"])]
     return dict(
